@@ -160,6 +160,22 @@ def isScalarLeaf : Term → Bool
   | boolc _ => true
   | _ => false
 
+/-- a size-1 constant of rank 0 (true scalar) -/
+def isScalar0 : Term → Bool
+  | leaf _ ann true => annRank ann == some 0
+  | _ => false
+
+/-- split an operand list into (rank-0 scalar constants, the single other operand, rank-0 scalar
+    constants) -/
+def splitMain : List Term → Option (List Term × Term × List Term)
+  | [] => Option.none
+  | a :: rest =>
+    if isScalar0 a then
+      match splitMain rest with
+      | some (pre, m, post) => some (a :: pre, m, post)
+      | Option.none => Option.none
+    else if rest.all isScalar0 then some ([], a, rest) else Option.none
+
 /-- operand `a` of a pointwise operator seen through `T_p`: `some x` with `a ≃ T_p(x)`.
     `n = some k`: n-ary case, every transposed operand must have statically known rank `k` and
     every size-1 constant rank ≤ k.  `n = none`: unary case, no rank condition. -/
@@ -211,6 +227,11 @@ def pullArgs (args : List Term) : Option (List Nat × List Term × Option Nat) :
 def derivedAnn (xs : List Term) (k : Option Nat) : Ann :=
   ⟨match xs with | x :: _ => dtypeOf x | [] => Option.none,
    k.map (fun n => List.replicate n Dim.unk)⟩
+
+/-- annotation for `pw(pre ++ [b] ++ post)` with rank-0 scalar `pre/post`: element type of the
+    first operand, shape of `b` -/
+def shapeAnn (xs : List Term) (b : Term) : Ann :=
+  ⟨match xs with | x :: _ => dtypeOf x | [] => Option.none, shapeOf b⟩
 
 def mkIdentity (ann : Ann) (args : Term) : Term :=
   match args with
@@ -270,6 +291,15 @@ def mkPw (nm att : String) (ann : Ann) (args : Term) : Term :=
         (cons (app (.pw nm att) (derivedAnn [b] (rankOf b)) (cons b nil)) (cons s nil))
     else app (.pw nm att) ann args
   | _, _, _ =>
+  match splitMain args.toList with
+  | some (pre, app .reshape _ (cons b (cons s nil)), post) =>
+    -- one reshaped operand, all others rank-0 scalar constants
+    if proper b && proper s && args == ofList args.toList then
+      app .reshape Ann.none
+        (cons (app (.pw nm att) (shapeAnn (pre ++ [b] ++ post) b) (ofList (pre ++ [b] ++ post)))
+          (cons s nil))
+    else app (.pw nm att) ann args
+  | _ =>
   match pullArgs args.toList with
   | some (p, xs, k) =>
     if args == ofList args.toList then
